@@ -262,7 +262,7 @@ func subsets(xs []string, pairsOnly bool) [][]string {
 	return out
 }
 
-func genShareFamilies(static []string) {
+func genShareFamilies(static []string, thorough bool) {
 	known := map[string]bool{}
 	for _, o := range static {
 		known[o] = true
@@ -277,7 +277,10 @@ func genShareFamilies(static []string) {
 				ops = append(ops, o)
 			}
 		}
-		for _, sub := range subsets(ops, fam.pairs) {
+		for si, sub := range subsets(ops, fam.pairs) {
+			if fam.pairs && !thorough && (si+int(common.Seed()))%2 != 0 {
+				continue // quick: half of the pairs of the two large families, the other half with the next seed
+			}
 			modes := []string{"ha"}
 			if fam.name == "ram" {
 				modes = []string{"ha", "hy", "vn"}
@@ -311,7 +314,7 @@ func genShareFamilies(static []string) {
 // GetExternalPortsWires: attached to processors that are not 0..k-1 it panics (index out of range).
 // Proposed known finding C18-vtextmem-box-index (docs/C18-known-findings.json); until it is listed the
 // family leaves those machines out.  Set to true once the entry is merged.
-const vtextmemNonPrefix = false
+const vtextmemNonPrefix = true
 
 func genPermuted(thorough bool) {
 	maps := [][]int{{1, 0}, {1, 1, 0}, {0, 0, 1}, {2, 0, 1}, {1, 2, 2}}
@@ -423,7 +426,7 @@ func gen(thorough bool) {
 		}
 	}
 	// (4b) every subset of the opcode families that share helper declarations
-	genShareFamilies(static)
+	genShareFamilies(static, thorough)
 	// (4c) processor -> domain mappings that are not the identity
 	genPermuted(thorough)
 	// (5) ports without IO opcodes (the CLIs let the user choose N and M freely)
